@@ -45,6 +45,7 @@ type FuncContract struct {
 	Params     []string // optional explicit parameter names (extern/iface)
 	Where      string
 	Lets       [][2]string // name, expr: ghost abbreviations usable in clauses (evaluated at entry)
+	Sweep      bool        // zero-annotation entry of a no-panic sweep: only the receiver is assumed non-nil
 	Expose     bool        // element reads below existential quantifiers are also stated outside them (helps E-matching on goals)
 	GhostMaps  []string    // assumed contracts only: existentially chosen Int->Int maps, fresh at every call (e.g. the permutation of a sort)
 	Uses       map[string]map[string]bool // callee short name -> the only postconditions of it that are assumed at its call sites here
@@ -74,12 +75,17 @@ type ContractDB struct {
 	Events *EventTable
 	Files  []string
 	LemmaPkg map[string]string
+	sweeps []sweepEntry
+}
+
+type sweepEntry struct {
+	prop, key, pkg, where string
 }
 
 var clauseKW = map[string]bool{"props": true, "requires": true, "ensures": true, "modifies": true, "loop": true, "emits": true,
 	"pure": true, "noeffect": true, "trusted": true, "params": true, "let": true, "ghostmap": true, "expose": true, "internal": true, "nosafety": true, "cutloops": true, "uses": true}
 
-var topKW = map[string]bool{"func": true, "iface": true, "extern": true, "pred": true, "spec": true, "axiom": true, "lemma": true, "event": true}
+var topKW = map[string]bool{"sweep": true, "func": true, "iface": true, "extern": true, "pred": true, "spec": true, "axiom": true, "lemma": true, "event": true}
 
 func pkgQualifier(path string) string {
 	path = strings.TrimPrefix(path, "github.com/sdcio/data-server/pkg/")
@@ -106,6 +112,12 @@ func LoadContracts(root string, dirToPkg map[string]string) (*ContractDB, error)
 			return nil, err
 		}
 		db.Files = append(db.Files, f)
+	}
+	for _, sw := range db.sweeps {
+		if _, has := db.Funcs[sw.key]; has {
+			continue // its safety obligations are generated under the properties of its own contract
+		}
+		db.Funcs[sw.key] = &FuncContract{Kind: "func", Key: sw.key, PkgPath: sw.pkg, Props: []string{sw.prop}, Invariants: map[int][]*Clause{}, Where: sw.where, Sweep: true}
 	}
 	return db, nil
 }
@@ -223,6 +235,16 @@ func (db *ContractDB) parseFile(file, pkgPath string) error {
 				db.Lemmas = append(db.Lemmas, c)
 			}
 			db.LemmaPkg[name] = pkgPath
+		case "sweep":
+			// sweep Cxx: fn fn fn ...   (safety obligations of functions without a contract of their own)
+			i := strings.Index(rest, ":")
+			if i < 0 {
+				return fmt.Errorf("%s: sweep Cxx: names", where)
+			}
+			prop := strings.TrimSpace(rest[:i])
+			for _, n := range strings.Fields(rest[i+1:]) {
+				db.sweeps = append(db.sweeps, sweepEntry{prop: prop, key: qualifyKey(n, q), pkg: pkgPath, where: where})
+			}
 		case "func", "iface", "extern":
 			fc := &FuncContract{Kind: w, PkgPath: pkgPath, Invariants: map[int][]*Clause{}, Where: where}
 			key := rest
